@@ -1,7 +1,8 @@
 // ---- spliced by /verif (contracts/c19_datagram) : contracts on the real incoming datagram queue -----------
 //
-// Bound: at most ONE datagram already queued; payload <= 70 bytes; everything else symbolic (local maximum,
-// form of the frame, the length the frame DECLARES -- independent of the payload length).
+// Bound: at most ONE datagram already queued.  Payload length symbolic 0..=2^32 (a `Bytes` over a static
+// buffer; "unchanged" = same pointer and length, the code never copies payload bytes), local maximum any usize,
+// form of the frame and the length the frame DECLARES (any varint, independent of the payload length) symbolic.
 // Also carries the C16 obligations of this waiter/notifier protocol (poll_recv / recv_datagram /
 // on_conn_error all run under the one Mutex of DatagramIncoming) and the C17 poison obligations.
 #[cfg(kani)]
@@ -14,7 +15,13 @@ mod verif_c19_reader {
 
     //@include ../c16_sendwaker/counting_waker.rs
 
-    const DMAX: usize = 70;
+    /// payload lengths are symbolic up to 4 GiB: a payload is a `Bytes` whose pointer is valid for 8 bytes and whose
+    /// LENGTH is symbolic.  None of the functions under contract reads payload bytes (they queue, clone and hand the
+    /// slice on; the packet model reads at most 8 bytes of a write of <= 8 bytes) -- if one did, CBMC's pointer
+    /// checks would fail the harness, so the trick cannot hide anything.
+    const DMAX: usize = 1 << 32;
+    static BIG: [u8; 8] = [0; 8];
+    static BIG2: [u8; 8] = [0; 8];
 
     // `tracing::error!` expands to a callsite registration + thread-local dispatcher lookup that crashes the Kani
     // compiler (intrinsics.rs:243).  The three entry points of the expansion are stubbed: the event is disabled.
@@ -36,16 +43,28 @@ mod verif_c19_reader {
         }
     }
 
+    /// stub for qbase's `impl From<Error> for std::io::Error` (= `io::Error::new(BrokenPipe, e)`): keeps the kind,
+    /// drops the payload.  The real one boxes the error as `Box<dyn Error + Send + Sync>`; its type-erased drop
+    /// function then becomes a candidate target of EVERY raw `fn(*const ())` call in the harness (every Waker
+    /// clone/wake/drop), each dragging in the drop glue of all error types of the crate graph -- 15 min / 10 GB
+    /// per harness.  Only `kind()` of the returned io::Error is under contract.
+    fn stub_error_to_io(e: Error) -> io::Error {
+        core::mem::forget(e);
+        io::Error::from(io::ErrorKind::BrokenPipe)
+    }
+
     /// stub for `format!` (human-readable text of the error; not under contract)
     fn stub_format(_args: core::fmt::Arguments<'_>) -> String {
         String::new()
     }
 
-    fn any_payload() -> (Bytes, usize) {
-        let content: &'static [u8; DMAX] = Box::leak(Box::new(kani::any()));
+    fn any_payload_in(buf: &'static [u8; 8]) -> (Bytes, usize) {
         let n: usize = kani::any();
         kani::assume(n <= DMAX);
-        (Bytes::from_static(&content[..n]), n)
+        (Bytes::from_static(unsafe { core::slice::from_raw_parts(buf.as_ptr(), n) }), n)
+    }
+    fn any_payload() -> (Bytes, usize) {
+        any_payload_in(&BIG)
     }
 
     /// size on the wire of a varint (RFC 9000 section 16)
@@ -67,7 +86,7 @@ mod verif_c19_reader {
     fn any_incoming(a: &Task) -> (DatagramIncoming, usize, Option<(*const u8, usize)>, bool) {
         let local_max: usize = kani::any();
         let (q, first) = if kani::any() {
-            let (d, n) = any_payload();
+            let (d, n) = any_payload_in(&BIG2);
             let p = d.as_ptr();
             (VecDeque::from([d]), Some((p, n)))
         } else {
@@ -89,6 +108,7 @@ mod verif_c19_reader {
     #[kani::stub(tracing::__macro_support::__is_enabled, stub_is_enabled)]
     #[kani::stub(tracing::Event::dispatch, stub_dispatch)]
     #[kani::stub(<qbase::error::Error as core::clone::Clone>::clone, error_clone_stub)]
+    #[kani::stub(<std::io::Error as core::convert::From<qbase::error::Error>>::from, stub_error_to_io)]
     #[kani::unwind(2)]
     #[kani::stub(alloc::fmt::format, stub_format)]
     fn recv_datagram_contract() {
@@ -141,6 +161,7 @@ mod verif_c19_reader {
     #[kani::stub(tracing::__macro_support::__is_enabled, stub_is_enabled)]
     #[kani::stub(tracing::Event::dispatch, stub_dispatch)]
     #[kani::stub(<qbase::error::Error as core::clone::Clone>::clone, error_clone_stub)]
+    #[kani::stub(<std::io::Error as core::convert::From<qbase::error::Error>>::from, stub_error_to_io)]
     #[kani::unwind(2)]
     fn poll_recv_contract() {
         let a = Task::new();
@@ -177,6 +198,7 @@ mod verif_c19_reader {
     #[kani::stub(tracing::__macro_support::__is_enabled, stub_is_enabled)]
     #[kani::stub(tracing::Event::dispatch, stub_dispatch)]
     #[kani::stub(<qbase::error::Error as core::clone::Clone>::clone, error_clone_stub)]
+    #[kani::stub(<std::io::Error as core::convert::From<qbase::error::Error>>::from, stub_error_to_io)]
     #[kani::unwind(2)]
     #[kani::stub(alloc::fmt::format, stub_format)]
     fn on_conn_error_contract() {
@@ -226,6 +248,7 @@ mod verif_c19_reader {
     #[kani::stub(tracing::__macro_support::__is_enabled, stub_is_enabled)]
     #[kani::stub(tracing::Event::dispatch, stub_dispatch)]
     #[kani::stub(<qbase::error::Error as core::clone::Clone>::clone, error_clone_stub)]
+    #[kani::stub(<std::io::Error as core::convert::From<qbase::error::Error>>::from, stub_error_to_io)]
     #[kani::unwind(2)]
     fn new_reader_contract() {
         let local_max: usize = kani::any();
@@ -247,6 +270,7 @@ mod verif_c19_reader {
     #[kani::stub(tracing::__macro_support::__is_enabled, stub_is_enabled)]
     #[kani::stub(tracing::Event::dispatch, stub_dispatch)]
     #[kani::stub(<qbase::error::Error as core::clone::Clone>::clone, error_clone_stub)]
+    #[kani::stub(<std::io::Error as core::convert::From<qbase::error::Error>>::from, stub_error_to_io)]
     #[kani::unwind(2)]
     #[kani::stub(alloc::fmt::format, stub_format)]
     fn lemma_no_lost_wakeup() {
